@@ -358,4 +358,61 @@ theorem gets_s_documented (cfg : Cfg) (dest dmax : Nat) (db : Bos) (inp len : Na
   · simp
   · exact hsub _ hm
 
+/-! ## gmtime_s / localtime_s -/
+
+theorem q_copyTm (k i res dest : Nat) : Quiet (copyTm k i res dest) := by
+  induction k generalizing i with
+  | zero => unfold copyTm; quiet
+  | succ k ih =>
+    unfold copyTm
+    refine Quiet.bind (Quiet.loadP _) (fun v => ?_)
+    refine Quiet.bind (by split <;> quiet) (fun _ => ih _)
+
+/-- outcome of gmtime_s / localtime_s (result: EOK = dest returned, otherwise `errno`): silent success or libc failure; a null
+pointer reported and returned as ESNULLP; an out-of-range `*timer` reported ONCE — as ESLEMIN / ESLEMAX — and returned as
+EOVERFLOW (known finding `tmconv-handler-code-differs-from-errno`: the handler is not passed the code the caller gets) -/
+def TmPost : Nat → List Event → Prop := fun r es =>
+  (es = [] ∧ (r = EOK ∨ r = NEG1)) ∨ (r = ESNULLP ∧ es = [.handler .str ESNULLP]) ∨
+  (r = EOVERFLOW ∧ (es = [.handler .str ESLEMIN] ∨ es = [.handler .str ESLEMAX]))
+
+theorem tmConv_ev (timer dest res : Nat) : EV (tmConv timer dest res) TmPost := by
+  unfold tmConv
+  have nul : EV (failS ESNULLP) TmPost :=
+    (EV.failS _).conseq (fun r es ⟨h1, h2⟩ => Or.inr (Or.inl ⟨h1, h2⟩))
+  split
+  · exact nul
+  split
+  · exact nul
+  refine Quiet.then_ (Quiet.loadP _) (fun t => ?_)
+  split
+  · exact EV.bind (EV.handlerS _) (fun _ es he => by subst he; exact EV.pure _ (Or.inr (Or.inr ⟨rfl, Or.inl (by simp)⟩)))
+  refine Quiet.then_ (Quiet.loadP _) (fun t2 => ?_)
+  split
+  · exact EV.bind (EV.handlerS _) (fun _ es he => by subst he; exact EV.pure _ (Or.inr (Or.inr ⟨rfl, Or.inr (by simp)⟩)))
+  split
+  · exact EV.pure _ (Or.inl ⟨rfl, Or.inr rfl⟩)
+  · exact Quiet.then_ (q_copyTm _ _ _ _) (fun _ => EV.pure _ (Or.inl ⟨rfl, Or.inl rfl⟩))
+
+/- FULL C05 statement (FALSE of the code, see `tmConv_C05_witness`): every returning call reported nothing and returned dest / NULL
+   with errno 0, or reported exactly once the code it leaves in errno. -/
+/-- what holds for all arguments and contents: never two reports, never a silent error code, never a report followed by success;
+the one reported code is the returned one except for an out-of-range timer -/
+theorem tmConv_C05_partial (timer dest res : Nat) (st : St) (r : Nat) (st' : St) (he : exec (tmConv timer dest res) st = .ok (r, st')) :
+    (st'.events = st.events ∧ (r = EOK ∨ r = NEG1)) ∨
+    (r = ESNULLP ∧ st'.events = st.events ++ [.handler .str ESNULLP]) ∨
+    (r = EOVERFLOW ∧ (st'.events = st.events ++ [.handler .str ESLEMIN] ∨ st'.events = st.events ++ [.handler .str ESLEMAX])) := by
+  obtain ⟨es, h1, h2⟩ := (tmConv_ev timer dest res).sound st he
+  rcases h2 with ⟨rfl, hr⟩ | ⟨hr, rfl⟩ | ⟨hr, rfl | rfl⟩
+  · exact Or.inl ⟨by simpa using h1, hr⟩
+  · exact Or.inr (Or.inl ⟨hr, h1⟩)
+  · exact Or.inr (Or.inr ⟨hr, Or.inl h1⟩)
+  · exact Or.inr (Or.inr ⟨hr, Or.inr h1⟩)
+
+/-- the excluded point: `*timer = -1` (cell value 2^64 - 1) is reported as ESLEMIN and returned as EOVERFLOW -/
+theorem tmConv_C05_witness :
+    ∃ st', exec (gmtime_s 8 100 200) { data := fun a => if a = 8 then 2^64 - 1 else 0, mapped := fun _ => true, rd := fun _ => true,
+                                       wr := fun _ => true } = .ok (EOVERFLOW, st') ∧
+      st'.events = [.handler .str ESLEMIN] ∧ ESLEMIN ≠ EOVERFLOW := by
+  refine ⟨_, rfl, rfl, by decide⟩
+
 end SafeC.Props.C05Time
